@@ -58,10 +58,13 @@ Definition clamp (lo hi v : Z) : Z := if hi <? v then hi else if v <? lo then lo
 
 (* v: the int64 (signed types) / uint64 (unsigned types) the value converts to *)
 Definition int_sql_text (t : ity) (v : Z) : bytes := format_int (clamp (ity_min t) (ity_sql_hi t) v).
-(* Convert(text): ParseInt / ParseUint (64 bit), then the range of the type; out-of-range texts are outside the model *)
+(* Convert(text): ParseInt (64 bit), then the clamp of the type (negative texts for unsigned types wrap in the
+   code: outside the model) *)
 Definition int_convert_text (t : ity) (s : bytes) : option Z :=
   match parse_int s with
-  | Some z => if (ity_min t <=? z) && (z <=? ity_max t) then Some z else None
+  | Some z => if ity_max t <? z then Some (ity_max t)
+              else if z <? ity_min t then (if ity_signed t then Some (ity_min t) else None)
+              else Some z
   | None => None
   end.
 
